@@ -37,7 +37,10 @@ vars == <<c, pc, done, live, recorded, hits, fired, surfaced, bodyOK, inspected,
 \* body limit under ProcessPartial, so the write itself stores the first limit bytes and runs the body phase.
 Cases == [spill : BOOLEAN, nfiles : 0..MaxFiles, keep : {"Off", "On", "RelevantOnly"}, relevant : BOOLEAN,
           point : Points, nth : 1..2, steps : 1..3, trunc : BOOLEAN,
-          entry : {"slice", "known", "unknown"}, limit : {"far", "reached"}]
+          entry : {"slice", "known", "unknown"}, limit : {"far", "reached"},
+          \* audit: the audit engine is on with part C, so ProcessLogging reads the request body back (from disk if spilled);
+          \* arm: the injected failure is armed from the start, or only once ProcessLogging begins
+          audit : BOOLEAN, arm : {"start", "logging"}]
 
 Init ==
   /\ c \in {x \in Cases : /\ (x.point = "none" => x.nth = 1)
@@ -47,7 +50,9 @@ Init ==
                           /\ (x.keep # "RelevantOnly" => ~x.relevant)
                           /\ (x.limit = "reached" => x.nfiles = 0 /\ ~x.trunc /\ x.spill /\ x.keep = "Off"
                                                      /\ x.point \in {"none", "body.createtemp", "body.spillcopy", "body.write"})
-                          /\ (x.entry # "slice" => x.keep = "Off" /\ ~x.trunc)}
+                          /\ (x.entry # "slice" => x.keep = "Off" /\ ~x.trunc)
+                          /\ (x.arm = "logging" => x.point = "body.readat" /\ x.audit /\ x.steps = 3 /\ x.nfiles = 0 /\ x.limit = "far" /\ x.entry = "slice")
+                          /\ (x.audit => x.keep = "Off" /\ ~x.trunc /\ x.limit = "far" /\ x.entry = "slice" /\ x.nfiles = 0)}
   /\ pc = "write" /\ done = 0 /\ live = {} /\ recorded = {} /\ hits = 0 /\ fired = FALSE
   /\ surfaced = FALSE /\ bodyOK = FALSE /\ inspected = FALSE /\ closeErr = FALSE /\ removeFailed = {}
 
@@ -83,7 +88,7 @@ StoreUploads(i, acc) ==
 
 Process ==
   /\ pc = "process"
-  /\ IF c.spill /\ bodyOK /\ Fires("body.readat", 0)
+  /\ IF c.spill /\ bodyOK /\ c.arm = "start" /\ Fires("body.readat", 0)
        THEN \* the processor cannot read the body: REQBODY_ERROR is set
             /\ fired' = TRUE /\ surfaced' = TRUE /\ inspected' = FALSE /\ UNCHANGED <<live, recorded>>
        ELSE LET r == StoreUploads(1, [live |-> live, recorded |-> recorded, fired |-> fired, failed |-> FALSE]) IN
@@ -94,10 +99,15 @@ Process ==
   /\ pc' = IF done' >= c.steps THEN "close" ELSE "logging"
   /\ UNCHANGED <<c, hits, bodyOK, closeErr, removeFailed>>
 
+\* ProcessLogging: with part C the audit record reads the stored body once more; a failing read must be reported
+\* (a log entry at least), the record then lacks the body
 Logging ==
   /\ pc = "logging"
   /\ done' = done + 1 /\ pc' = "close"
-  /\ UNCHANGED <<c, live, recorded, hits, fired, surfaced, bodyOK, inspected, closeErr, removeFailed>>
+  /\ IF c.audit /\ c.spill /\ bodyOK /\ c.arm = "logging" /\ c.point = "body.readat"
+       THEN fired' = TRUE /\ surfaced' = TRUE
+       ELSE UNCHANGED <<fired, surfaced>>
+  /\ UNCHANGED <<c, live, recorded, hits, bodyOK, inspected, closeErr, removeFailed>>
 
 \* Close: uploads are removed unless retention applies; the spill file is always removed
 Keep == c.keep = "On" \/ (c.keep = "RelevantOnly" /\ c.relevant /\ done >= 2)
